@@ -43,6 +43,11 @@ pub enum TargetAddress {
 }
 
 impl TargetAddress {
+    /// An IPv6 address with a zone (`fe80::1%5`). Only text can carry the zone: the binary address fields
+    /// of SOCKS and of the UDP frames have no room for it, and without it the address is a different one.
+    pub fn has_zone(&self) -> bool {
+        matches!(self, Self::SocketAddr(SocketAddr::V6(a)) if a.scope_id() != 0)
+    }
     // pub async fn connect_tcp(&self) -> std::io::Result<TcpStream> {
     //     match self {
     //         Self::DomainPort(host, port) => TcpStream::connect((host.as_str(), *port)).await,
